@@ -288,6 +288,19 @@ func main() {
 		}
 	}
 	rec(nil)
+	// long sessions: the session bit e and the history keep evolving; 16 messages per session
+	// over cyclic size patterns (all shifts of each pattern)
+	patterns := [][]msg{{{0, 0}}, {{1, 0}}, {{0, 17}}, {{1, 17}}, {{200, 0}, {0, 17}}, {{201, 17}, {1, 0}, {0, 0}}, {{0, 0}, {1, 17}, {200, 17}, {201, 0}, {399, 1}}}
+	for _, pat := range patterns {
+		for shift := range pat {
+			var sq []msg
+			for k := 0; k < 16; k++ {
+				sq = append(sq, pat[(k+shift)%len(pat)])
+			}
+			seqs = append(seqs, sq)
+		}
+	}
+	r.Set("long_session_length", 16)
 	r.Parallel(len(seqs), func(i int) {
 		r.Eval()
 		key := keyOf(16, 2)
@@ -296,7 +309,7 @@ func main() {
 		ref := rk.NewSanse(key)
 		for j, m := range seqs[i] {
 			p, a := fill(m.P, j), fill(m.A, 10+j)
-			id := fmt.Sprintf("session:%v@%d", seqs[i], j)
+			id := fmt.Sprintf("session:len=%d:%v@%d", len(seqs[i]), seqs[i][:min(3, len(seqs[i]))], j)
 			var ct []byte
 			if pn := vk.Try(func() { ct = snd.Seal(nil, nil, p, a) }); pn != "" {
 				r.Violation(id, "Seal "+pn, seqs[i])
